@@ -280,15 +280,18 @@ def recursion_unwindset(target, crate, bounds):
     _RNv Nt* <crate disambiguator+name> <len module>... <len fn>, and the crate disambiguator is read from the names of
     the goto binaries an earlier build left in the target directory."""
     cname = crate.replace("-", "_")
-    dis = None
+    dis, newest = None, -1.0
     for root, _dirs, files in os.walk(os.path.join(target, "kani")):
         for f in files:
             m = re.search(r"__RNv(?:Nt)*(Cs[0-9A-Za-z]+_)%d%s\d" % (len(cname), cname), f)
             if m:
-                dis = m.group(1)
-                break
-        if dis:
-            break
+                # the most recently written goto binary belongs to this run (the target dir starts as a copy of the cache)
+                try:
+                    mt = os.path.getmtime(os.path.join(root, f))
+                except OSError:
+                    continue
+                if mt > newest:
+                    dis, newest = m.group(1), mt
     if not dis:
         return None
     sets = []
